@@ -217,6 +217,53 @@ pub struct BigCase {
     pub src_levels: u8,
     pub dst_levels: u8,
     pub mf: u8,
+    /// 0 = in-memory cursors and a Vec destination; 1 = sources serving short and interrupted
+    /// reads and a destination accepting short and interrupted writes; 2 = every source reads the
+    /// SAME file through handles that share one file position (like File::try_clone)
+    #[serde(default)]
+    pub io: u8,
+}
+
+/// Handles onto one in-memory file sharing a single position (what duplicated OS file handles do).
+#[derive(Clone)]
+pub struct SharedPos(pub std::rc::Rc<RefCell<Cursor<Vec<u8>>>>);
+
+impl std::io::Read for SharedPos {
+    fn read(&mut self, buf: &mut [u8]) -> std::io::Result<usize> {
+        self.0.borrow_mut().read(buf)
+    }
+}
+
+impl std::io::Seek for SharedPos {
+    fn seek(&mut self, pos: std::io::SeekFrom) -> std::io::Result<u64> {
+        self.0.borrow_mut().seek(pos)
+    }
+}
+
+/// streams a merger over arbitrary sources and compares output and call log with the model
+fn merge_and_check<R: std::io::Read + std::io::Seek>(
+    cursors: Vec<ReaderCursor<R>>,
+    mode: u8,
+    want: &[Entry],
+    want_calls: &[Call],
+) -> Result<(), String> {
+    let mf = Recording { mode, calls: RefCell::new(Vec::new()) };
+    let mut b = Merger::builder(&mf);
+    b.extend(cursors);
+    let mut it = b.build().into_stream_merger_iter().map_err(|e| e.to_string())?;
+    let mut out: Vec<Entry> = Vec::new();
+    while let Some((k, v)) = it.next().map_err(|e| e.to_string())? {
+        out.push((k.to_vec(), v.to_vec()));
+        if out.len() > want.len() + 8 {
+            return Err("merger does not terminate".into());
+        }
+    }
+    if out != want {
+        return Err(format!("streamed output ({} entries) differs from the union map ({} entries)", out.len(), want.len()));
+    }
+    drop(it);
+    let calls = mf.calls.borrow().clone();
+    check_calls(&calls, want_calls)
 }
 
 pub fn run_big(c: &BigCase) -> Result<usize, String> {
@@ -235,8 +282,45 @@ pub fn run_big(c: &BigCase) -> Result<usize, String> {
             }
             files.push(write_file(&FileCfg::layout(Some(1024), Some(2), c.src_levels), &entries)?);
         }
+        if c.io == 2 {
+            // every source is the first file, read through handles sharing one position
+            let shared = SharedPos(std::rc::Rc::new(RefCell::new(Cursor::new(files[0].clone()))));
+            let mut cursors = Vec::new();
+            for _ in 0..c.sources {
+                cursors.push(Reader::new(shared.clone()).and_then(|r| r.into_cursor()).map_err(|e| e.to_string())?);
+            }
+            let first: Vec<Entry> = (0..c.n).filter(|i| i % 3 != 0).map(|i| (key(i), value(0, i % 4, 3))).collect();
+            let want: Vec<Entry> = first.iter().map(|(k, v)| (k.clone(), model_merge(c.mf, &vec![v.clone(); c.sources]))).collect();
+            let want_calls: Vec<Call> = first.iter().map(|(k, v)| (k.clone(), vec![v.clone(); c.sources])).collect();
+            merge_and_check(cursors, c.mf, &want, &want_calls).map_err(|e| format!("sources sharing one file position: {e}"))?;
+            return Ok(want.len());
+        }
         let want: Vec<Entry> = model.iter().map(|(k, vs)| (k.clone(), model_merge(c.mf, vs))).collect();
         let want_calls: Vec<Call> = model.iter().map(|(k, vs)| (k.clone(), vs.clone())).collect();
+        if c.io == 1 {
+            let ctl = vlib::sio::Ctl::new(vlib::sio::Policy::Alternate);
+            let mut cursors = Vec::new();
+            for f in &files {
+                cursors.push(Reader::new(vlib::sio::SFile::with_data(&ctl, f.clone())).and_then(|r| r.into_cursor()).map_err(|e| e.to_string())?);
+            }
+            merge_and_check(cursors, c.mf, &want, &want_calls).map_err(|e| format!("sources serving short and interrupted reads: {e}"))?;
+            // destination accepting short and interrupted writes
+            let mut cursors = Vec::new();
+            for f in &files {
+                cursors.push(Reader::new(vlib::sio::SFile::with_data(&ctl, f.clone())).and_then(|r| r.into_cursor()).map_err(|e| e.to_string())?);
+            }
+            let mf2 = Recording { mode: c.mf, calls: RefCell::new(Vec::new()) };
+            let mut b = Merger::builder(&mf2);
+            b.extend(cursors);
+            let mut w = writer_builder(&FileCfg::layout(Some(1024), Some(2), c.dst_levels)).build(vlib::sio::SFile::new(&ctl));
+            b.build().write_into_stream_writer(&mut w).map_err(|e| format!("write_into_stream_writer over a short-writing sink: {e}"))?;
+            let sink = w.into_inner().map_err(|e| e.to_string())?;
+            let back = crate::query::run_query(&sink.data, &crate::query::Query::Scan { rev: false, mode: crate::query::CursorMode::Fresh })?;
+            if back != want {
+                return Err("file streamed into a sink accepting short and interrupted writes differs from the union map".into());
+            }
+            return Ok(want_calls.iter().filter(|c| c.1.len() >= 2).count());
+        }
         let open_all = || -> Result<Vec<ReaderCursor<Cursor<&[u8]>>>, String> {
             files.iter().map(|f| Reader::new(Cursor::new(f.as_slice())).and_then(|r| r.into_cursor()).map_err(|e| e.to_string())).collect()
         };
@@ -280,7 +364,11 @@ pub fn big_cases() -> Vec<BigCase> {
             for src_levels in [0u8, 2, 3] {
                 for dst_levels in [2u8, 3] {
                     for mf in [0u8, 1] {
-                        v.push(BigCase { sources, n, src_levels, dst_levels, mf });
+                        v.push(BigCase { sources, n, src_levels, dst_levels, mf, io: 0 });
+                        if n == 30 {
+                            v.push(BigCase { sources, n, src_levels, dst_levels, mf, io: 1 });
+                            v.push(BigCase { sources, n, src_levels, dst_levels, mf, io: 2 });
+                        }
                     }
                 }
             }
@@ -368,7 +456,7 @@ pub fn run(tier: Tier) -> i32 {
     let mut acc = acc;
     acc.merge(a2);
     rep.acc = acc;
-    rep.set("rule", json!("E2: all k in 0..=K source lists, each source an arbitrary subset of the 4-key universe {'', 40, 4000, 80} (empty sources included) written with one of 3 file configurations (default; 700-byte values + index_levels 2 so a source crosses blocks between entries; Snappy) — all combinations — x 2 merge functions (recording concatenation returning a lone value unchanged / Cow::Owned otherwise; Cow::Borrowed first value); sources added through add/push/extend; oracle: streamed output = union map, the recorded merge-call log = one call per key with the values in source-addition order, and write_into_stream_writer + read-back = the same content; plus larger merges (2-3 sources of 30/70 entries with 600-byte keys, source and destination index_levels up to 3 with cut index blocks); distinct_nontrivial = cases where some key is held by >= 2 sources"));
+    rep.set("rule", json!("E2: all k in 0..=K source lists, each source an arbitrary subset of the 4-key universe {'', 40, 4000, 80} (empty sources included) written with one of 3 file configurations (default; 700-byte values + index_levels 2 so a source crosses blocks between entries; Snappy) — all combinations — x 2 merge functions (recording concatenation returning a lone value unchanged / Cow::Owned otherwise; Cow::Borrowed first value); sources added through add/push/extend; oracle: streamed output = union map, the recorded merge-call log = one call per key with the values in source-addition order, and write_into_stream_writer + read-back = the same content; plus larger merges (2-3 sources of 30/70 entries with 600-byte keys, source and destination index_levels up to 3 with cut index blocks; also over sources serving short/interrupted reads with a short-writing destination, and over sources that are handles of one file sharing a single position); distinct_nontrivial = cases where some key is held by >= 2 sources"));
     rep.set("bound", json!({"max_sources": maxk, "cases": total}));
     rep.assume("the merger cannot inspect the merge function, so the recorded call log (key, ordered values, call count) determines the output for every deterministic merge function");
     rep.finish()
